@@ -62,3 +62,59 @@ PROPS["C02"] = dict(
                 "rows compared with the law of the type written from the property text; params, constants, cubic_spline, status properties under contract.",
     trusted_base=[AML_TRUST, CPP_TRUST], not_decided=["pumps never report reverse flow (emergent, network-level)", ">=3-point pump curve fit (scipy curve_fit) is bounded only"], assumptions=[],
 )
+
+RT_TRUST = "RegInv (C14): typed iterators / get_links_for_node / registries enumerate exactly the registered elements (assumed where C14's own obligations are not yet discharged)"
+
+PROPS["C01"]["explanation"] = (
+    "mass-balance builders proved for arbitrarily many inlet/outlet links via prefix-sum loop invariants; the demand chain "
+    "Pattern.at / TimeSeries.at / Demands.at (loop invariant over the demand entries) / expected_demand_param / demand_var, and "
+    "store_results_in_network (sum rule over in/out links) and save_results are executed symbolically from the real source for an "
+    "arbitrary element of each kind (independent-iteration rule with havoc of loop-carried locals); lemmas compose row + stored results "
+    "into the reported balance and the demand formula. Counter-models are replayed on real wntr objects.")
+PROPS["C01"]["trusted_base"] = [AML_TRUST, CPP_TRUST, RT_TRUST]
+PROPS["C01"]["not_decided"] = ["floating point", "WaterNetworkModel.get_links_for_node itself (C14) is an assumed contract here"]
+
+PROPS["C04"]["explanation"] += (
+    " _compute_next_timestep_and_run_presolve_controls_and_rules is executed from the real source against protocol stubs with ghost "
+    "state (K=2 due controls, R=2 rules, all values symbolic; unbounded rule grid by loop invariant + variant; the two stable sorts executed "
+    "exactly): rules are evaluated with sim_time at positive multiples of the rule timestep in increasing order, controls act in time order "
+    "and ascending priority (highest last), the step stops exactly at the first change. run_sim's entry code establishes the rule-grid invariant. "
+    "And/Or backtrack, Rule action selection, ControlChecker.check and control actions are under contract (shared with C05).")
+
+PROPS["C05"] = dict(
+    level="proof",
+    explanation="ValueCondition / TankLevelCondition (cylindrical tanks: partial-step backtrack lands within one second of flow past the threshold) / "
+                "RelativeCondition / And / Or conditions, ControlAction and _InternalControlAction (which attribute is written, observers notified), "
+                "Rule action selection, ControlChecker.check (3 controls), ControlChangeTracker.update/changes_made, the internal CV/pump/valve status "
+                "conditions and _get_all_tank_controls are executed symbolically from the real source; the run_sim protocol contract proves that results "
+                "are saved only for a converged, stored state after which post-solve and feasibility controls ran and changed nothing (a reported step "
+                "is a fixed point of the conditional controls).",
+    trusted_base=["np.round(x, 10) is the identity (float == R)", RT_TRUST],
+    not_decided=["TankLevelCondition with a volume curve (np.interp) - not under proof", "the step converged and the trial limit was not hit (premise of the property)",
+                 "_run_postsolve_controls / _run_feasibility_controls bodies are stubs in the run_sim contract (they only call check(), sort by priority and run actions)"],
+    assumptions=[],
+)
+PROPS["C06"] = dict(
+    level="proof",
+    explanation="update_tank_heads (cylindrical: volume changes by net inflow x elapsed time, integrating from the previous solved head), "
+                "update_network_previous_values, Tank.get_volume / level / init_level, TankLevelCondition's backtrack bound and "
+                "WNTRSimulator._get_all_tank_controls (which links are closed at min/max head before and after each solve, re-open thresholds) are "
+                "executed symbolically from the real source; lemma: overshoot below two seconds of the tank's flow.",
+    trusted_base=[RT_TRUST],
+    not_decided=["tanks with a volume curve: update_tank_heads / get_volume use np.interp (clamping); not under proof (pre-survey finding 18)",
+                 "first step: no backtracking at t=0"],
+    assumptions=[],
+)
+PROPS["C16"] = dict(
+    level="proof",
+    explanation="NewtonSolver.solve (loop invariants over both loops, ghost 'vector loaded in the model': converged only if the loaded residual is below "
+                "tol; every other exit is error; bounded by maxiter / bt_maxiter), _solver_helper, and the run_sim protocol executed from the real source "
+                "against contract stubs with ghost state: a failed step (after the optional backup solver) or exhausted trials stops the run - RuntimeError "
+                "iff convergence_error, otherwise warning + error_code - and nothing is saved afterwards; saved times strictly increase, lie on the report "
+                "grid and each save has exactly one time entry; the loop terminates (lexicographic variant). save_results / update_network_previous_values "
+                "are under contract (one entry per list per element).",
+    trusted_base=["aml.Model get_x/load_var_values_from_x/evaluate_residuals (C15)", "scipy.sparse.linalg.spsolve returns a vector or raises MatrixRankWarning", RT_TRUST],
+    not_decided=["results contain only finite numbers (floats are reals here)", "get_results (pandas assembly): one column per element - not yet under contract",
+                 "_setup_sim_options (report/hydraulic step normalisation) is a stub in the run_sim contract"],
+    assumptions=["maxiter >= 1, bt_maxiter >= 1, max_trials >= 0, rule_timestep > 0, hydraulic_timestep >= 1"],
+)
